@@ -143,6 +143,15 @@ def footprints():
             return "more than declared string sizes differs in the program"
         if "STRING[80]" not in on or "STRING[80]" in off:
             return "sizes not applied"
+        for t, label in ((on, "80"), (off, "32")):
+            names = []
+            for l in user_part(t).split("\n"):
+                m = re.match(r"^\s*(?:\d+ )?DIM (.*)$", l)
+                if m:
+                    names += [x for x in re.findall(r"([A-Za-z_][A-Za-z_0-9]*\$?)(?:\([^)]*\))?\s*(?:,|:|;|$)", re.sub(r"STRING\[\d+\]|STRING|display_t|play_t|integer|real|byte", "", m.group(1))) if x]
+            dup = sorted({n for n in names if names.count(n) > 1})
+            if dup:
+                return "declared more than once at size %s: %s" % (label, dup)
         return True
     out += check("str80", p_str, "only declared string sizes (DIM suffixes, allocation lines, library placeholders)")
 
@@ -207,6 +216,14 @@ def command_line():
             compiler.convert_file(io.StringIO("x"), out, add_standard_prefix=False)
             ref = compiler.convert("x", add_standard_prefix=False)
         res.append(ob("cli/convert_file writes OS-9 line ends", out.getvalue() == ref.replace("\n", "\r") and "\n" not in out.getvalue(), "convert() output with every LF replaced by CR", repr(out.getvalue())[:120]))
+        # convert_file hands the listing to convert() as it is: content in every case and script survives (real parser, no injection)
+        listing = '10 DATA paris,"Rome",new york\n20 REM mixed Case remark\n30 A$="lower UPPER":PRINT "x";A$\n40 \'tail Comment\n50 READ B$\n'
+        for kw in (dict(), dict(filter_unused_linenum=True, initialize_vars=False), dict(output_dependencies=True, procname="p", default_str_storage=80)):
+            out = io.StringIO()
+            compiler.convert_file(io.StringIO(listing), out, **kw)
+            ref = compiler.convert(listing, **kw)
+            res.append(ob("cli/convert_file is convert() plus line ends,%s" % ",".join(sorted(kw)) if kw else "cli/convert_file is convert() plus line ends", out.getvalue() == ref.replace("\n", "\r"),
+                          "identical to convert(text, same options) with LF -> CR", "differs: %r ..." % next((a for a, b in zip(out.getvalue().split("\r"), ref.split("\n")) if a != b), "")[:100] if out.getvalue() != ref.replace("\n", "\r") else "identical"))
         return res
     return guarded("cli", run)
 
